@@ -186,11 +186,11 @@ _A = ["recorded time stamps strictly increase (C05)", "history arrays arbitrary 
 _all_kinds = [{"kind": k, "ineq": i, "pi": p} for k in KINDS for i in (">", "<") for p in (None, 0, 1)]
 HARNESSES = [
     Harness("C19.read", read, functions=_F, assumptions=_A, bounds={"history length": "N", "phases/elements": 2},
-            params={"quick": [dict(x, N=2) for x in _all_kinds[::3]] + [dict(_all_kinds[4], N=1)], "thorough": [dict(x, N=n) for x in _all_kinds for n in (1, 3)]}),
+            params={"quick": [dict(x, N=2) for x in _all_kinds[::3]] + [dict(_all_kinds[4], N=1)] + [dict(x, N=2) for x in _all_kinds if x["kind"] == "composition" and x["pi"] == 1], "thorough": [dict(x, N=n) for x in _all_kinds for n in (1, 3)]}),
     Harness("C19.latch", latch, functions=_F, assumptions=_A,
             params={"quick": [dict(x, N=2) for x in _all_kinds[1::7]], "thorough": [dict(x, N=2) for x in _all_kinds]}),
     Harness("C19.interp", interp, functions=_F, assumptions=_A,
-            params={"quick": [dict(x, N=3) for x in _all_kinds[2::4]] + [dict(_all_kinds[0], N=1), dict(_all_kinds[9], N=2)],
+            params={"quick": [dict(x, N=3) for x in _all_kinds[2::4]] + [dict(_all_kinds[0], N=1), dict(_all_kinds[9], N=2)] + [dict(x, N=2) for x in _all_kinds if x["kind"] == "composition" and x["pi"] == 1 and x["ineq"] == "<"],
                     "thorough": [dict(x, N=n) for x in _all_kinds for n in (1, 2, 4)]}),
     Harness("C19.combine", combine, functions=_F, assumptions=_A, bounds={"conditions": "<= 3 (4 thorough)"},
             stubs=["_calculateDependentTerms/_appendArrays/_updateParticleSizeDistribution/updateCoupledModels/getCurrentX of the model: no-ops (not the subject)"],
